@@ -4,6 +4,7 @@ import NanoVerif.Model.Gradient
 import NanoVerif.Model.Palette
 import NanoVerif.Model.ViewBox
 import NanoVerif.Model.ClipBox
+import NanoVerif.Model.PaintTree
 /-
 Correspondence driver.  One JSON object per input line: {"op": ..., ...}; one JSON object per
 output line.  Run: `lake env lean --run Driver.lean < ops.jsonl`.
@@ -89,8 +90,19 @@ def getLayer (j : Json) : Except String (List Pt × Aff) := do
   let t ← getAff (← field j "t")
   return (pts, t)
 
+partial def getTree (j : Json) : Except String PTree := do
+  let k ← getStr (← field j "k")
+  if k == "glyph" then return .glyph (← getStr (← field j "name"))
+  let t ← getAff (← field j "t")
+  let kids ← (← getArr (← field j "kids")).mapM getTree
+  return .node t kids
+
 def dispatch (op : String) (j : Json) : Except String Json := do
   match op with
+  | "tree-glyphs" =>
+      let t ← getTree (← field j "tree")
+      let l := t.glyphs Aff.id
+      return obj [("dfs", Json.arr (l.map fun (n, a) => Json.arr #[Json.str n, jAff a]).toArray)]
   | "viewbox-space" =>
       let vb ← getRect (← field j "vb")
       let asc ← getQ (← field j "asc")
